@@ -1140,6 +1140,8 @@ def _correlate_from_convolve(self, seq, weights, axis=-1, output=None, mode='ref
     w = self.np_asarray(weights).ravel()
     n = w.size
     o = -_conc_int(origin) - (0 if n % 2 else 1)
+    if self.kind_of(w) == 'c':
+        w = ew1(ndarr.elem_conj, w)          # scipy's correlate1d conjugates complex weights
     return self.convolve1d(seq, w[::-1], axis=axis, mode=mode, origin=o)
 
 
